@@ -16,6 +16,15 @@ import unicodedata
 _ASCII_DIGITS = "0123456789"
 
 
+def _to_int(p: str) -> int:
+    """Decimal digits → int without the interpreter's int-from-string digit limit (components may be thousands of digits)."""
+    n = 0
+    for i in range(0, len(p), 1000):
+        chunk = p[i : i + 1000]
+        n = n * 10 ** len(chunk) + int(chunk)
+    return n
+
+
 def parse_canonical(s: str) -> tuple[int, int, int] | None:
     parts = s.split(".")
     if len(parts) != 3:
@@ -29,7 +38,7 @@ def parse_canonical(s: str) -> tuple[int, int, int] | None:
                 return None
         if len(p) > 1 and p[0] == "0":
             return None
-        out.append(int(p))
+        out.append(_to_int(p))
     return (out[0], out[1], out[2])
 
 
